@@ -352,38 +352,7 @@ func checkC03(c *Ctx, r *Report) {
 			}
 			r.Check(okReg, name+"|encrypted region", cryptC.Pos(), "everything after the IV, in place, on the live buffer", "the encrypted region is not the live buffer contents after the IV")
 		}
-		evs, _ := extractEvents(c, fn, nil)
-		okPad := false
-		whyPad := "no success path"
-		for _, le := range evs {
-			if !le.OK {
-				continue
-			}
-			var ap, payload *Lin
-			for _, ev := range le.Events {
-				if ev.Kind == "len" && ev.L != nil {
-					l := *ev.L
-					if ev.Name == "app" {
-						ap = &l
-					}
-					if strings.HasPrefix(ev.Name, "buf") && payload == nil {
-						payload = &l
-					}
-				}
-			}
-			if ap == nil || payload == nil {
-				continue
-			}
-			n := ap.addConst(-1)
-			if entails(le.Cons, geq(n, linConst(0))) && entails(le.Cons, leq(n, linConst(15))) && divisibleUnder(c, le.Cons, payload.add(*ap, 1), 16) {
-				okPad = true
-			} else {
-				okPad = false
-				whyPad = "cannot show payload+n+1 ≡ 0 (mod 16) with 0 ≤ n ≤ 15 for trailer length " + evLen(le, "app")
-				break
-			}
-		}
-		r.Check(okPad, name+"|pad length", fn.Pos(), "payload+n+1 ≡ 0 (mod 16), 0 ≤ n ≤ 15", whyPad)
+		checkAESPadArithmetic(c, r, fn)
 	}
 	checkAESPadConvention(c, r)
 	checkBufferViews(c, r, "buffer-views")
@@ -402,4 +371,43 @@ func evLen(le layoutEvents, name string) string {
 		}
 	}
 	return "?"
+}
+
+
+// checkAESPadArithmetic: on every success path of the AES serialiser the
+// trailer length n+1 satisfies payload+n+1 ≡ 0 (mod 16) with 0 ≤ n ≤ 15.
+func checkAESPadArithmetic(c *Ctx, r *Report, fn *ssa.Function) {
+	name := c.FnName(fn)
+	evs, _ := extractEvents(c, fn, nil)
+	okPad := false
+	whyPad := "no success path"
+	for _, le := range evs {
+		if !le.OK {
+			continue
+		}
+		var ap, payload *Lin
+		for _, ev := range le.Events {
+			if ev.Kind == "len" && ev.L != nil {
+				l := *ev.L
+				if ev.Name == "app" {
+					ap = &l
+				}
+				if strings.HasPrefix(ev.Name, "buf") && payload == nil {
+					payload = &l
+				}
+			}
+		}
+		if ap == nil || payload == nil {
+			continue
+		}
+		n := ap.addConst(-1)
+		if entails(le.Cons, geq(n, linConst(0))) && entails(le.Cons, leq(n, linConst(15))) && divisibleUnder(c, le.Cons, payload.add(*ap, 1), 16) {
+			okPad = true
+		} else {
+			okPad = false
+			whyPad = "cannot show payload+n+1 ≡ 0 (mod 16) with 0 ≤ n ≤ 15 for trailer length " + evLen(le, "app")
+			break
+		}
+	}
+	r.Check(okPad, name+"|pad length", fn.Pos(), "payload+n+1 ≡ 0 (mod 16), 0 ≤ n ≤ 15", whyPad)
 }
